@@ -109,6 +109,9 @@ func c09Parse(src string) (c09Ref, error, interface{}) {
 
 // c09Variants calls f(name, variantSource, insertedCommentIndex) for every single layout change.
 // cmIdx is the index at which an inserted comment "k" must appear among the comments (-1: none).
+// c09Pairs: also apply pairs of boundary-level changes (set for the small base sentences)
+var c09Pairs bool
+
 func c09Variants(ss []sym, m gramResult, f func(name, src string, cmIdx int)) {
 	at := atomsOf(ss)
 	// which atoms lie after a comment on their line (layout there is comment text)
@@ -136,6 +139,42 @@ func c09Variants(ss []sym, m gramResult, f func(name, src string, cmIdx int)) {
 			return def
 		}
 	}
+	type bchange struct {
+		b      int
+		layout string
+		name   string
+		cm     int
+	}
+	var singles []bchange
+	f0 := f
+	f = func(name, src string, cmIdx int) { f0(name, src, cmIdx) }
+	note := func(b int, layout, name string, cm int) { singles = append(singles, bchange{b, layout, name, cm}) }
+	defer func() {
+		if !c09Pairs {
+			return
+		}
+		// pairs: a first change that inserts no comment at one boundary, any second change at a later boundary
+		for i, c1 := range singles {
+			if c1.cm >= 0 {
+				continue
+			}
+			for _, c2 := range singles[i+1:] {
+				if c2.b <= c1.b {
+					continue
+				}
+				lay := func(k int, def string) string {
+					switch k {
+					case c1.b:
+						return c1.layout
+					case c2.b:
+						return c2.layout
+					}
+					return def
+				}
+				f0("pair: "+c1.name+" + "+c2.name, renderAtoms(ss, at, lay), c2.cm)
+			}
+		}
+	}()
 	for b := 0; b <= len(at); b++ {
 		if inComment[b] {
 			continue
@@ -158,28 +197,39 @@ func c09Variants(ss []sym, m gramResult, f func(name, src string, cmIdx int)) {
 		intra := b < len(at) && !at[b].head
 		switch {
 		case b == len(at):
+			note(b, " ", "trailing blank at end of input", -1)
 			f("trailing blank at end of input", renderAtoms(ss, at, only(b, " ")), -1)
 			if prev != nil && prev.kind != kNL && prev.kind != kBroken {
+				note(b, " #k", "comment at end of input", commentsBefore[b])
 				f("comment at end of input", renderAtoms(ss, at, only(b, " #k")), commentsBefore[b])
 			}
 		case cur.kind == kNL:
+			note(b, " ", "blank before newline", -1)
 			f("blank before newline", renderAtoms(ss, at, only(b, " ")), -1)
 			if prev != nil && prev.kind != kNL {
+				note(b, " #k", "comment before newline", commentsBefore[b])
 				f("comment before newline", renderAtoms(ss, at, only(b, " #k")), commentsBefore[b])
 			}
 		case intra:
+			note(b, "\\\n", "backslash-newline inside "+cur.text, -1)
 			f("backslash-newline inside "+cur.text, renderAtoms(ss, at, only(b, "\\\n")), -1)
 		case def == " ":
+			note(b, "  ", "two blanks", -1)
 			f("two blanks", renderAtoms(ss, at, only(b, "  ")), -1)
 			f("tab", renderAtoms(ss, at, only(b, "\t")), -1)
 			f("blank tab blank", renderAtoms(ss, at, only(b, " \t ")), -1)
+			note(b, " \\\n", "backslash-newline", -1)
 			f("backslash-newline", renderAtoms(ss, at, only(b, " \\\n")), -1)
+			note(b, " \\\n ", "backslash-newline blank", -1)
 			f("backslash-newline blank", renderAtoms(ss, at, only(b, " \\\n ")), -1)
 			if glueOK(*prev, *cur) {
+				note(b, "", "no blank", -1)
 				f("no blank", renderAtoms(ss, at, only(b, "")), -1)
+				note(b, "\\\n", "bare backslash-newline", -1)
 				f("bare backslash-newline", renderAtoms(ss, at, only(b, "\\\n")), -1)
 			}
 		default: // start of input or of a line
+			note(b, " ", "leading blank", -1)
 			f("leading blank", renderAtoms(ss, at, only(b, " ")), -1)
 			f("leading tab", renderAtoms(ss, at, only(b, "\t")), -1)
 		}
@@ -272,7 +322,11 @@ func c09Sentence(w *W, ss []sym) {
 		w.Count("evaluations", 1)
 		w.Count("transitions", 1)
 		w.Count("traces_validated_against_impl", 1)
-		w.Count("transform: "+strings.SplitN(name, " inside", 2)[0], 1)
+		if strings.HasPrefix(name, "pair: ") {
+			w.Count("pairs_of_changes", 1)
+		} else {
+			w.Count("transform: "+strings.SplitN(name, " inside", 2)[0], 1)
+		}
 		if d := c09Judge(base, src, cmIdx, name == "newline for ;"); d != "" {
 			w.Violation("", c09Case{symTexts(ss), r.src, src, name}, fmt.Sprintf("%q → %q (%s): %s", r.src, src, name, d))
 		}
@@ -291,6 +345,40 @@ func c09Run(w *W) {
 			return
 		}
 		c09Sentence(w, append([]sym{}, ss...))
+	})
+	// base sentences that already hold a trailing comment and more text after its newline: the lists of leaf
+	// commands of ≤ 5 symbols with "#c <newline>" inserted at every position (what follows the comment's newline
+	// shows whether a layout change makes that newline disappear)
+	seenC := map[string]bool{}
+	derivations(false, func(name string, texts []string) {
+		if name != "D0" || len(texts) > 5 {
+			return
+		}
+		for i := 1; i <= len(texts); i++ {
+			t := append(append(append([]string{}, texts[:i]...), "#c", "\n"), texts[i:]...)
+			t = append(t, "\n")
+			key := strings.Join(t, "\x00")
+			if seenC[key] || !w.Mine() || w.TimeUp() {
+				seenC[key] = true
+				continue
+			}
+			seenC[key] = true
+			ss := syms(t...)
+			if m := gramParse(ss); !m.ok && m.dontcare == "" && m.consumed == 0 {
+				continue
+			}
+			w.Count("comment_bases", 1)
+			c09Pairs = len(texts) <= 3 // the smallest of these sentences also get every pair of changes
+			c09Sentence(w, ss)
+			c09Pairs = false
+		}
+		if len(texts) <= 3 && w.Mine() && !w.TimeUp() {
+			ss := syms(append(append([]string{}, texts...), "\n")...)
+			c09Pairs = true
+			w.Count("pair_bases", 1)
+			c09Sentence(w, ss)
+			c09Pairs = false
+		}
 	})
 	seen := map[string]bool{}
 	derivations(w.thorough(), func(name string, texts []string) {
